@@ -110,6 +110,11 @@ def frame_and_setonce(c, pre, post, owned, label):
     return ok
 
 
+def in_range(v, n):
+    """an edge index of an axis with n cells"""
+    return vand(0 <= v, v <= n)
+
+
 def changed_cells(pre, post):
     return [k for k in pre if pre[k] is None and post[k] is not None]
 
@@ -327,6 +332,9 @@ def position_rule(axis, p_own, p_other, pattern_bits, with_grid_margin):
         if exc is not None:
             c.prove("pos/raise_is_defined_behaviour", isinstance(exc, Exception))
             return
+        # soundness is needed (and claimed) for reference boxes inside the volume: on a successful
+        # exit every object passed the bounds check and cells are set-once
+        V.assume(vand(in_range(pre[("Y", axis, "b0")], N[axis]), in_range(pre[("Y", axis, "b1")], N[axis])))
         b0, b1 = post[("X", axis, "b0")], post[("X", axis, "b1")]
         c.prove("pos/sound:targets_known", b0 is not None and b1 is not None)
         size = pre[("X", axis, "s")]
@@ -372,6 +380,7 @@ def size_rule(axis, other_axis, prop, pattern_bits, with_grid_offset):
             c.prove("size/raise_is_defined_behaviour", isinstance(exc, Exception))
             c.prove("size/raise_leaves_state", not changed_cells(pre, post))
             return
+        V.assume(vand(in_range(pre[("Y", other_axis, "b0")], N[other_axis]), in_range(pre[("Y", other_axis, "b1")], N[other_axis])))
         s = post[("X", axis, "s")]
         c.prove("size/sound:target_known", s is not None)
         length = (pre[("Y", other_axis, "b1")] - pre[("Y", other_axis, "b0")]) * pr + off + g
@@ -417,10 +426,16 @@ def extension_rule(axis, direction, other, other_position, pattern_bits, with_gr
                     c.prove("ext/idle:flag_false", ret[0] is False)
                 return
         if exc is not None:
-            c.prove("ext/raise_only_if_target_or_volume", bool(pattern_bits[-1]) or (other is None and not pattern_bits[0]))
+            # a conflict with a known target, an unknown volume bound, or (numpy IndexError) a reference box
+            # whose edge indices do not exist on this axis
+            oob = False
+            if other is not None:
+                oob = vnot(vand(*[vand(-(N[axis] + 1) <= pre[("Y", axis, b)], pre[("Y", axis, b)] <= N[axis]) for b in ("b0", "b1")]))
+            c.prove("ext/raise_only_if_target_or_volume_or_reference_out_of_range", vor(bool(pattern_bits[-1]) or (other is None and not pattern_bits[0]), oob))
             c.prove("ext/raise_leaves_state", not changed_cells(pre, post))
             return
         if other is not None:
+            V.assume(vand(in_range(pre[("Y", axis, "b0")], N[axis]), in_range(pre[("Y", axis, "b1")], N[axis])))
             clause = P.constraint_clauses(("ext", "X", "Y", axis, direction, other_position, off, g), {"X": st.slices["X"], "Y": st.slices["Y"]}, N)
             for lab, cond in clause:
                 c.prove(f"ext/sound:{lab}", cond)
@@ -571,7 +586,7 @@ def rule_tasks(tier):
             axis = k % 3
             gm = (sum(bs) + k) % 2 == 0
             out[f"rule/pos/a{axis}/own{po}other{pt}/{lab(bs)}{'/gm' if gm else ''}"] = position_rule(axis, po, pt, bs, gm)
-    for k, (prop, oa_shift) in enumerate([(1, 0), (Fraction(1, 2), 0), (2, 1), (1, 2)] if tier == "quick" else [(p, s) for p in (1, Fraction(1, 2), 2, Fraction(3, 4)) for s in (0, 1, 2)]):
+    for k, (prop, oa_shift) in enumerate([(1, 0), (Fraction(1, 2), 0), (2, 1), (1, 2), (Fraction(1, 2), 1), (Fraction(1, 2), 2)] if tier == "quick" else [(p, s) for p in (1, Fraction(1, 2), 2, Fraction(3, 4)) for s in (0, 1, 2)]):
         for bs in bits(4):
             axis = k % 3
             out[f"rule/size/a{axis}from{(axis + oa_shift) % 3}/prop{prop}/{lab(bs)}"] = size_rule(axis, (axis + oa_shift) % 3, prop, bs, (sum(bs) + k) % 2 == 1)
@@ -669,6 +684,31 @@ def systems(tier="quick"):
     S["two_parents"] = {"objects": [vol, X, Y, Z], "constraints": [pos("X", "Y", 0, 0), pos("X", "Z", -1, -1), grid("Y", "-", I("ya")), grid("Z", "-", I("za"))]}
     # 10. size constraint against a declared size, child placed by extension
     S["declared_vs_relative_size"] = {"objects": [vol, X, Y], "constraints": [size("X", "Y", 1, 0, I("go")), pos("X", VOL, 0, 0), pos("Y", "X", 0, 0)]}
+    # 11. NON-CUBIC volume (independent extents), cross-axis size: Y's y-size is half of X's x-extent
+    ncvol = (VOL, (I("N0", 1), I("N1", 1), I("N2", 1)))
+    S["noncubic_cross_axis_size"] = {
+        "objects": [ncvol, Xn, Yn],
+        "constraints": [("grid", "X", (0, 0), ("-", "+"), (I("xa"), I("xb"))), ("size", "Y", "X", (1,), (0,), (Fraction(1, 2),), (R("off"),), (0,)), ("pos", "Y", VOL, (1,), (0,), (0,), (0,), (0,))],
+    }
+    # 12. non-cubic volume, size taken from the z-extent, position on y and extension on z of the same pair
+    S["noncubic_mixed_axes"] = {
+        "objects": [ncvol, ("X", (None, I("sx1", 1), None)), ("Y", (None, None, None))],
+        "constraints": [
+            ("grid", "X", (1, 2, 2), ("-", "-", "+"), (I("xa1"), I("xa2"), I("xb2"))),
+            ("size", "Y", "X", (1,), (2,), (1,), (0,), (I("go"),)),
+            ("pos", "Y", "X", (1,), (-1,), (1,), (R("m"),), (0,)),
+            ("ext", "Y", "X", 2, "+", -1, 0, 0),
+        ],
+        # pruning (saves paths): the reference box given by grid coordinates is a proper box inside the
+        # volume; coordinates outside are rejected by the bounds check (covered by the other systems)
+        "assume": [("le", 0, "xa1"), ("le", "xa1", "N1"), ("le", 0, "xa2"), ("lt", "xa2", "xb2"), ("le", "xb2", "N2")],
+    }
+    # 13. non-cubic volume, same cross-axis size with the larger extent on the reference axis and a
+    #     declared size to validate against (over-determined)
+    S["noncubic_cross_axis_declared"] = {
+        "objects": [ncvol, ("X", (I("sx0", 1), None, None)), ("Y", (None, None, I("sy2", 1)))],
+        "constraints": [("pos", "X", VOL, (0,), (1,), (1,), (0,), (0,)), ("size", "Y", "X", (2,), (0,), (1,), (0,), (0,)), ("pos", "Y", VOL, (2,), (-1,), (-1,), (0,), (0,))],
+    }
     if tier != "quick":
         S["chain3_margins"] = {"objects": [vol, X, Y, Z], "constraints": [pos("Z", "Y", 0, 0, R("m2")), pos("Y", "X", 1, -1, R("m1")), pos("X", VOL, 0, 0), size("Z", "X", 1, 0, 0)]}
         S["extend_both_sides"] = {
@@ -740,6 +780,10 @@ def _prepare(system, inp, assume_fit=True):
     V = P.Values(inp=inp)
     objs, cons, info = P.build(system, V)
     N = info["shapes"][VOL]
+    for op, a, b in system.get("assume", ()):
+        va = V.cache[a] if isinstance(a, str) else a
+        vb = V.cache[b] if isinstance(b, str) else b
+        ctx().assume(va <= vb if op == "le" else va < vb)
     if assume_fit:
         # declared sizes fit into the volume (larger ones are rejected by the real code with a
         # ValueError -> placement error; covered by the bounded runs, pruned here to save paths)
@@ -935,13 +979,14 @@ def planted_system(rnd, max_objects=3):
                 cons.append(pos_constraint(o, r, a, sl))
             elif mode == "size_pos":
                 prop = rnd.choice([1, 1, H, 2])
-                rs = truth[r][a][1] - truth[r][a][0]
+                ra = a if rnd.random() < 0.6 else rnd.choice([x for x in range(3) if x != a])  # cross-axis reference
+                rs = truth[r][ra][1] - truth[r][ra][0]
                 off = Fraction(s) - rs * Fraction(prop)
                 g = rnd.choice([0, 0, 1, -1])
                 jitter = rnd.choice([0, 0, Fraction(1, 4), Fraction(-1, 4)])
                 if off - g + jitter + rs * Fraction(prop) + g >= 0:
                     off = off + jitter
-                cons.append(("size", o, r, (a,), (a,), (prop,), (off - g,), (g,)))
+                cons.append(("size", o, r, (a,), (ra,), (prop,), (off - g,), (g,)))
                 cons.append(pos_constraint(o, r, a, sl))
             elif mode == "real2":
                 j0, j1 = rnd.choice([0, Fraction(1, 4), Fraction(-1, 4)]), rnd.choice([0, Fraction(1, 4), Fraction(-1, 4)])
@@ -975,8 +1020,9 @@ def planted_system(rnd, max_objects=3):
             cons.append(("grid", o, (a,), (side,), ((sl[0] if side == "-" else sl[1]) + wrong,)))
         else:
             r = rnd.choice(others)
-            rs = truth[r][a][1] - truth[r][a][0]
-            cons.append(("size", o, r, (a,), (a,), (1,), (Fraction(sl[1] - sl[0] - rs),), (wrong,)))
+            ra = a if rnd.random() < 0.5 else rnd.choice([x for x in range(3) if x != a])
+            rs = truth[r][ra][1] - truth[r][ra][0]
+            cons.append(("size", o, r, (a,), (ra,), (1,), (Fraction(sl[1] - sl[0] - rs),), (wrong,)))
     rnd.shuffle(cons)
     objects = [(VOL, N)] + [(o, decl[o]) for o in names]
     return {"objects": objects, "constraints": cons, "truth": {k: tuple(v) for k, v in truth.items()}}
@@ -1014,25 +1060,36 @@ SWEEP_MAIN = {
     "pos": ("pos", "X", "Y", A3, (0, 0, 0), (1, 1, 1), (R("m"),) * 3, (0, 0, 0)),
     "size": ("size", "X", "Y", A3, A3, (1, 1, 1), (R("off"),) * 3, (0, 0, 0)),
     "ext": ("ext", "X", "Y", 0, "+", -1, R("off"), 0),
+    # cross-axis size on a NON-CUBIC volume: X's y-size from Y's x-extent
+    "xsize": ("size", "X", "Y", (1,), (0,), (Fraction(1, 2),), (R("off"),), (0,)),
 }
+SWEEP_AXES = {"pos": (None, None), "size": (None, None), "ext": (0, 0), "xsize": (1, 0)}  # (axis of X, axis of Y); None = all three (cubic)
 
 
 def sweep_system(kind, bits):
     """bits: (X.s, X.b0, X.b1, Y.s, Y.b0, Y.b1) preset flags"""
     xs, xb0, xb1, ys, yb0, yb1 = bits
-    one_axis = kind == "ext"
-    axes = (0,) if one_axis else A3
+    ax_x, ax_y = SWEEP_AXES[kind]
 
-    def shp(flag, name):
+    def shp(flag, name, ax):
         if not flag:
             return (None, None, None)
-        return (I(name, 1), None, None) if one_axis else _cube(I(name, 1))
+        if ax is None:
+            return _cube(I(name, 1))
+        return tuple(I(name, 1) if a == ax else None for a in range(3))
 
     cons = []
-    for flag, obj, side, sym in ((xb0, "X", "-", "xa"), (xb1, "X", "+", "xb"), (yb0, "Y", "-", "ya"), (yb1, "Y", "+", "yb")):
+    for flag, obj, side, sym, ax in ((xb0, "X", "-", "xa", ax_x), (xb1, "X", "+", "xb", ax_x), (yb0, "Y", "-", "ya", ax_y), (yb1, "Y", "+", "yb", ax_y)):
         if flag:
+            axes = A3 if ax is None else (ax,)
             cons.append(("grid", obj, axes, (side,) * len(axes), (I(sym),) * len(axes)))
-    return {"objects": [(VOL, _cube(I("N", 1))), ("X", shp(xs, "sx")), ("Y", shp(ys, "sy"))], "constraints": cons, "main": SWEEP_MAIN[kind]}
+    vol = _cube(I("N", 1)) if kind != "xsize" else (I("N0", 1), I("N1", 1), I("N2", 1))
+    out = {"objects": [(VOL, vol), ("X", shp(xs, "sx", ax_x)), ("Y", shp(ys, "sy", ax_y))], "constraints": cons, "main": SWEEP_MAIN[kind]}
+    if kind == "xsize":
+        # pruning (saves paths): preset grid coordinates are edge indices of their own axis; coordinates
+        # outside the volume end in a bounds error and are covered by the cubic kinds
+        out["assume"] = [a for flag, a in ((xb0, ("le", 0, "xa")), (xb0, ("le", "xa", "N1")), (xb1, ("le", 0, "xb")), (xb1, ("le", "xb", "N1")), (yb0, ("le", 0, "ya")), (yb0, ("le", "ya", "N0")), (yb1, ("le", 0, "yb")), (yb1, ("le", "yb", "N0"))) if flag]
+    return out
 
 
 def sweep_tasks(tier):
@@ -1042,7 +1099,7 @@ def sweep_tasks(tier):
         for bits in itertools.product((False, True), repeat=6):
             base = sweep_system(kind, bits)
             n = len(base["constraints"])
-            system = {"objects": base["objects"], "constraints": base["constraints"] + [base["main"]]}
+            system = {"objects": base["objects"], "constraints": base["constraints"] + [base["main"]], "assume": base.get("assume", ())}
             first = (n,) + tuple(range(n))
             last = tuple(range(n)) + (n,)
             lab = "".join("k" if b else "n" for b in bits)
